@@ -309,6 +309,14 @@ def rule_rf_mutations(prog: Program, report: Report) -> None:
                         why = f"`{recv.id}` is a parameter: the caller's object is changed in place"
                 elif recv.id.isupper():
                     verdict = "module-level registry"
+                else:
+                    # a local alias of an owned working field: `cache = self.wrap_cache; cache.append(..)`
+                    ds = _local_defs(fn.node, recv.id)
+                    if len(ds) == 1 and isinstance(ds[0], ast.Attribute):
+                        for ot in tm.instance_names(fn.module, ds[0].value):
+                            cls_ = ot.rsplit(".", 1)[-1]
+                            if (cls_, ds[0].attr) in OWNERS:
+                                verdict = f"alias of the non-value owner {cls_}.{ds[0].attr}: {OWNERS[(cls_, ds[0].attr)]}"
             if verdict is None and isinstance(recv, ast.Attribute):
                 owner_types = tm.instance_names(fn.module, recv.value)
                 for ot in owner_types:
